@@ -48,9 +48,10 @@ fn main() {
                     "sseed": sseed.to_string(), "cmds": beh}).to_string());
                 let mut it = scen::Interp::new(&facs, sseed);
                 it.run(beh.as_array().unwrap());
+                let gen_arg = arg(&args, "--gen");
                 let (pname, gname) = match prop.strip_suffix("probe") {
                     Some(p) => (p.to_string(), "probe"),
-                    None => (prop.clone(), "explore"),
+                    None => (prop.clone(), gen_arg.as_deref().unwrap_or("explore")),
                 };
                 let recs = it.finish(idbase + i as u64, &pname, gname, &beh);
                 if recs.len() <= 1 {
